@@ -489,6 +489,22 @@ fn run_case(lines: &[String], out: &mut Vec<String>) {
                                     Err(m) => format!("panic {}", m),
                                 },
                             },
+                            // a DataItem obtained by deserialising the five numbers (no builder validation: the only way to an
+                            // inconsistent DataItem) — must behave like any other implementor of the price traits with those numbers
+                            "j" => {
+                                let mut raw: Vec<u8> = Vec::with_capacity(40);
+                                for k in 2..7 {
+                                    raw.extend_from_slice(&pf(t[k]).to_le_bytes());
+                                }
+                                match quiet(|| bincode::deserialize::<DataItem>(&raw)) {
+                                    Ok(Ok(item)) => match quiet(|| ind.next_item(&item)) {
+                                        Ok(v) => fmt_out(&v),
+                                        Err(m) => format!("panic {}", m),
+                                    },
+                                    Ok(Err(e)) => format!("deerr {}", e),
+                                    Err(m) => format!("panic {}", m),
+                                }
+                            }
                             "r" => match quiet(|| ind.reset()) {
                                 Ok(()) => "ok".into(),
                                 Err(m) => format!("panic {}", m),
